@@ -384,11 +384,18 @@ func recursionC19(c *Ctx) {
 				if !ok || spread {
 					continue
 				}
-				cl, ok := ast.Unparen(x).(*ast.CompositeLit)
-				if !ok {
+				var e privElem
+				if cl, ok := ast.Unparen(x).(*ast.CompositeLit); ok {
+					e = p.privElem(cl)
+				} else if id, isID := ast.Unparen(x).(*ast.Ident); isID {
+					le, ok := p.localPrivElem(id)
+					if !ok {
+						continue
+					}
+					e = le
+				} else {
 					continue
 				}
-				e := p.privElem(cl)
 				key := "Sources.RequiredPrivileges: measurement contributes read on its database"
 				okE := e.privilege == "ReadPrivilege" && strings.HasSuffix(e.name, ".Database") && e.admin == "false"
 				if okE && !escapesBefore(cc.Body, i) {
@@ -409,7 +416,7 @@ func recursionC19(c *Ctx) {
 			for i, s := range cc.Body {
 				if as, ok := s.(*ast.AssignStmt); ok && len(as.Rhs) == 1 {
 					if call, ok := as.Rhs[0].(*ast.CallExpr); ok {
-						if sel, ok := call.Fun.(*ast.SelectorExpr); ok && sel.Sel.Name == "RequiredPrivileges" && strings.HasSuffix(types.ExprString(sel.X), ".Statement") {
+						if sel, ok := call.Fun.(*ast.SelectorExpr); ok && sel.Sel.Name == "RequiredPrivileges" && (strings.HasSuffix(types.ExprString(sel.X), ".Statement") || p.TypeStr(p.Info.TypeOf(sel.X)) == "*SelectStatement") {
 							hasCall = true
 						}
 					}
@@ -425,6 +432,18 @@ func recursionC19(c *Ctx) {
 				}
 				if _, spread, ok := appendOf(s); ok && spread && !escapesBefore(cc.Body[:i], 0) {
 					hasAppend = true
+				}
+				// element by element: for ... range privs { ep = append(ep, privs[i]) }
+				if rs, ok := s.(*ast.RangeStmt); ok && !escapesBefore(cc.Body[:i], 0) && len(rs.Body.List) == 1 {
+					if x, spread, ok := appendOf(rs.Body.List[0]); ok && !spread {
+						arg := ast.Unparen(x)
+						if ix, isIx := arg.(*ast.IndexExpr); isIx && types.ExprString(ix.X) == types.ExprString(rs.X) {
+							hasAppend = true
+						}
+						if id, isID := arg.(*ast.Ident); isID && rs.Value != nil && types.ExprString(rs.Value) == id.Name {
+							hasAppend = true
+						}
+					}
 				}
 			}
 			c.Check(hasCall && hasErr && hasAppend, "C19.recursion", "Sources.RequiredPrivileges: subquery contributes its statement's privileges", cc.Pos(),
